@@ -19,7 +19,7 @@ RULE = ("a catalogue of multi-class trees (classes of 1-4 files of several sizes
         "describe the same groups. Non-trivial = report with >= 1 group; distinct by (tree, filter, format, output).")
 ASSUMPTIONS = ["redundant-file statistics are only checked on trees without hard links unless --match-links is given "
                "(whether a hard link is a 'redundant file' is not documented)",
-               "no particular collation of paths is assumed, only that it is a function of the path set"]
+               "no particular collation of paths is assumed, only that it is a function of the path set (same order for every permutation of the input roots and when the files are created in the opposite order)"]
 
 FILTERS = [("default", []), ("rf0", ["--rf-over", "0"]), ("rf2", ["--rf-over", "2"]), ("unique", ["--unique"]),
            ("under3", ["--rf-under", "3"]), ("isolate", ["--isolate"]), ("links", ["--match-links"]),
@@ -68,6 +68,9 @@ def catalogue(tier):
         tree.append({"p": "r1x/b/%s" % n, "k": "file", "c": ["base", 50 + i, i + 1]})
         if i % 3 == 0:
             tree.append({"p": "r3/e/%s" % n, "k": "file", "c": ["base", 50 + i, i + 1]})
+    # one class whose names differ only in bytes that are not valid UTF-8 (in one directory and across directories)
+    for q in ("r1/a/inv\udcfe", "r1/a/inv\udcff", "r1x/b/inv\udcfe", "r1/a/inv\udcfd"):
+        tree.append({"p": q, "k": "file", "c": ["base", 77, 99]})
     tree.append({"p": "r3/e", "k": "dir"})
     trees.append((1000, False, tree))
     return trees
@@ -166,6 +169,23 @@ def evaluate(case):
                 results[(tuple(order), fmt)] = (groups, st)
         ref = G.scan_reference(sc.tree, {"roots": ROOTS, "args": fargs})
         root_abs = dict(zip(ROOTS, ref["roots"]))
+        # the same tree created in the opposite order (other inode numbers, other directory order): the order of the
+        # paths inside a group depends on the set of paths only
+        first = results.get((tuple(ORDERS[0]), "json"))
+        if first and case["out"] == "stdout":
+            C.rmtree(sc.tree)
+            os.makedirs(sc.tree)
+            ents = case["tree"]
+            C.make_tree(sc.tree, [e for e in reversed(ents) if e["k"] != "hard"] + [e for e in ents if e["k"] == "hard"])
+            rc, out, err, to = C.fclones(["group", "--min", "0"] + fargs + list(ORDERS[0]) + ["-f", "json"], sc)
+            if rc == 0 and not to:
+                again = {frozenset(g["paths"]): g["paths"] for g in parse_output("json", out)[0]}
+                for g in first[0]:
+                    other = again.get(frozenset(g["paths"]))
+                    if other is not None and other != g["paths"]:
+                        viol.append(dict(feat, kind="path_order_depends_on_creation_order",
+                                         detail="files created in the opposite order: %s instead of %s" % (
+                                             [os.path.basename(C.u(x)) for x in other], [os.path.basename(C.u(x)) for x in g["paths"]])))
     files = ref["files"]
 
     def fkey(p):
